@@ -119,6 +119,19 @@ def class_source(name, base, sig, leaf):
     if sig["vk"]:
         items.append("'**': dict(kwargs)")
     bound, extra = ", ".join(items), ""
+    if sig.get("via_new"):
+        # the real constructor is a custom __new__; __init__ only forwards (its signature says nothing about the parameters)
+        body = [
+            f"class {name}({base}):",
+            f"    def __new__({', '.join(['cls'] + params[1:])}):",
+            "        self = super().__new__(cls)",
+            f"        LOG.append((cls.__name__, {'None' if leaf else 'target'}, {{{bound}{extra}}}, self))",
+            "        return self",
+            "    def __init__(self, *args, **kwargs):",
+            "        " + ("pass" if leaf else "super().__init__(args[0] if args else kwargs['target'])"),
+        ]
+        body.append("    def run(self):\n        pass")
+        return "\n".join(body) + "\n"
     body = [
         f"class {name}({base}):",
         f"    def __init__({', '.join(params)}):",
@@ -159,7 +172,7 @@ def signature(draw, leaf):
     if not leaf and draw(st.integers(0, 7)) == 0:
         return {"po": [], "pk": [], "va": True, "ko": [], "vk": True, "implicit_target": True}
     return {"po": po, "pk": pk, "va": draw(st.booleans()) and draw(st.booleans()), "ko": ko,
-            "vk": draw(st.booleans()) and draw(st.booleans())}
+            "vk": draw(st.booleans()) and draw(st.booleans()), "via_new": draw(st.integers(0, 5)) == 0}
 
 
 _val = itertools.count(100)
@@ -509,7 +522,7 @@ def run_chain(spec) -> Result:
     if spec["tail_form"] == "instance" and obj is not given_pool:
         res.fail("tail-identity", "the pool at the end of the chain is not the pool instance supplied")
     res.cls("verdict:built", "n:%d" % n, "tail:" + spec["tail_form"], "ltr:" + str(is_left_to_right(spec["tree"])),
-            "service:" + str(any(e["service"] for e in elems)))
+            "service:" + str(any(e["service"] for e in elems)), "constructed-by-__new__:" + str(any(e["sig"].get("via_new") for e in elems + [tail])))
     for e in elems + [tail]:
         res.cls("mode:" + e["mode"])
     res.nontrivial = (n >= 3 and not is_left_to_right(spec["tree"])) or split or adversarial
